@@ -59,6 +59,8 @@ def decorator_effect(prog, deco_qual) -> DecoratorEffect:
             t = st.test
             if isinstance(t, ast.Constant) and not t.value:
                 continue  # statically dead block: nothing in it is published
+            if isinstance(t, ast.UnaryOp) and isinstance(t.op, ast.Not) and isinstance(t.operand, ast.Compare) and len(t.operand.ops) == 1 and isinstance(t.operand.ops[0], ast.Is):
+                t = ast.Compare(left=t.operand.left, ops=[ast.IsNot()], comparators=t.operand.comparators)
             guard_ok = (
                 isinstance(t, ast.Compare)
                 and len(t.ops) == 1
@@ -140,11 +142,37 @@ def _classify_sig_expr(val, param, sig_vars, replaced):
         for kw in val.keywords:
             if kw.arg == "parameters":
                 plist = kw.value
-        if src and isinstance(plist, (ast.List, ast.Tuple)) and len(plist.elts) == 2 and isinstance(plist.elts[1], ast.Starred):
-            star = util.unparse(plist.elts[1].value)
-            if star.endswith(".parameters.values()"):
-                return src if src in ("raw-class", "raw-init-function") else "unknown"
+        if src and plist is not None and _param_items(plist) == ["P", "SIG"]:
+            return src if src in ("raw-class", "raw-init-function") else "unknown"
     return "unknown"
+
+
+def _param_items(e):
+    """flatten a `parameters=` expression into ['P' (one extra parameter), 'SIG' (the signature's own parameters), '?']"""
+    if isinstance(e, (ast.List, ast.Tuple)):
+        out = []
+        for x in e.elts:
+            if isinstance(x, ast.Starred):
+                out.extend(_param_items(x.value))
+            elif isinstance(x, ast.Call) and (util.dotted(x.func) or "").split(".")[-1] == "Parameter":
+                out.append("P")
+            else:
+                out.append("?")
+        return out
+    if isinstance(e, ast.Call):
+        d = (util.dotted(e.func) or "").split(".")[-1]
+        if d in ("list", "tuple") and len(e.args) == 1:
+            return _param_items(e.args[0])
+        if d == "chain":
+            out = []
+            for a in e.args:
+                out.extend(_param_items(a))
+            return out
+        if util.unparse(e).endswith(".parameters.values()"):
+            return ["SIG"]
+    if isinstance(e, ast.BinOp) and isinstance(e.op, ast.Add):
+        return _param_items(e.left) + _param_items(e.right)
+    return ["?"]
 
 
 def signature_model(prog, cls, chk=None, ignore_decorators=False):
@@ -292,6 +320,15 @@ def leaf_flags(chk):
             r = prog.resolve(fi.module, ctor)
             if r in prog.classes:
                 classes.append(prog.classes[r])
+            elif isinstance(ctor, ast.Name) and ctor.id == "self":
+                chk.bad(
+                    rule,
+                    fi.qual,
+                    "the template's constructor is the factory object itself: arguments are then checked against (and later passed to) its __call__ signature instead of the controller's constructor, so positional rule arguments are misbound or rejected",
+                    node=call,
+                    stmt="ctor-is-self",
+                )
+                continue
             else:
                 chk.undecided(rule, fi.qual, "constructor %s of the template does not resolve to a class" % util.unparse(ctor), node=call)
                 continue
@@ -333,14 +370,27 @@ def partial_core(chk):
     cls = prog.cls(PARTIAL)
     init = prog.method(PARTIAL, "__init__")
     check = None
-    # the signature check = the own method that calls bind_partial
-    for fis in cls.methods.values():
-        for fi in fis:
-            if any(isinstance(n, ast.Attribute) and n.attr in ("bind_partial", "bind") for n in ast.walk(fi.node)):
-                check = fi
+    # the signature check = the own method called from __init__ that (transitively) reaches bind_partial
+    def reaches_bind(f, seen=()):
+        if any(isinstance(n, ast.Attribute) and n.attr in ("bind_partial", "bind") for n in ast.walk(f.node)):
+            return True
+        for n in ast.walk(f.node):
+            if isinstance(n, ast.Call) and isinstance(n.func, ast.Attribute) and util.dotted(n.func.value) == "self":
+                g = prog.lookup_method(cls, n.func.attr)
+                if g is not None and g.qual not in seen and g is not f and reaches_bind(g, seen + (f.qual,)):
+                    return True
+        return False
+
+    for n in ast.walk(init.node):
+        if isinstance(n, ast.Call) and isinstance(n.func, ast.Attribute) and util.dotted(n.func.value) == "self":
+            g = prog.lookup_method(cls, n.func.attr)
+            if g is not None and reaches_bind(g):
+                check = g
     if check is None:
-        chk.bad("O4.1", cls.qual, "no method of Partial binds arguments against the constructor's signature: there is no eager check", node=cls.node, stmt="no-check")
-        return
+        for fis in cls.methods.values():
+            for fi in fis:
+                if fi.name != "__init__" and reaches_bind(fi):
+                    check = check or fi
     # O4.1a: __init__ reaches the check on every path
     it = Interp(prog, init)
     outs = it.run()
@@ -468,7 +518,7 @@ def check_signature_rules(chk, check):
                             return [("raise", exc_value(TYPEERROR, "bind"))]
                     return None
 
-                it = Interp(prog, check, decide=decide, call_hook=hook)
+                it = Interp(prog, check, decide=decide, call_hook=hook, inline=lambda f, ct: f.cls is check.cls and f is not check)
                 outs = it.run()
                 chk.count(len(outs))
                 scen += 1
@@ -569,7 +619,7 @@ def rshift_rules(chk):
                     return leaf if leaf is not None else None
                 return None
 
-            it = Interp(prog, fi, decide=decide, unroll=2)
+            it = Interp(prog, fi, decide=decide, unroll=2, inline=lambda f, ct, fi=fi: f.cls is fi.cls and not f.name.startswith("__"))
             outs = it.run()
             chk.count(len(outs))
             label = "%s >> %s" % (selfkind, kind)
@@ -655,6 +705,16 @@ def check_fold(chk, name, fi, o, t, label):
         chk.bad("O4.7", name, "%s: the result is %s; the parent must be bound last and its result returned" % (label, show(strip_sites(t))), node=fi.node, stmt="fold-parent", input=label)
         return False
     acc = t[3]
+    red = strip_sites(acc)
+    if red[0] == "call" and red[1] == ("glob", "ext:functools.reduce") and len(red[2]) == 3:
+        f, src, init0 = red[2]
+        body_ok = f[0] == "lambda" and len(f[1]) == 2 and f[2] == ("binop", ">>", ("bound", f[1][1]), ("bound", f[1][0]))
+        layers_, base = iteration_layers(src)
+        init_ok = init0 == ("binop", ">>", ("sub", TG, ("const", -1)), OTHER)
+        if body_ok and init_ok and layers_.count("reversed") % 2 == 1 and base == ("sub", TG, ("slice", ("const", None), ("const", -1), ("const", None))):
+            return True  # reduce(lambda bound, owner: owner >> bound, reversed(targets[:-1]), targets[-1] >> pool)
+        chk.bad("O4.7", name, "%s: the fold %s does not bind the last target first and the remaining ones in reverse" % (label, show(red)), node=fi.node, stmt="fold-reduce", input=label)
+        return False
     layers = []
     while acc[0] == "binop" and acc[1] == ">>":
         layers.append(acc[2])
